@@ -89,7 +89,8 @@ impl<R: Read, TSpec> TagIterator<R, TSpec>
     /// This initializes the [`TagIterator`] with a specific byte capacity.  The iterator will still reallocate if necessary. (Reallocation occurs if the iterator comes across a tag that should be output as a [`Master::Full`] and its size in bytes is greater than the iterator's current buffer capacity.)
     ///
     pub fn with_capacity(source: R, tags_to_buffer: &[TSpec], capacity: usize) -> Self {
-        let buffer = vec![0;capacity];
+        // Tag headers are parsed from a 16 byte look-ahead, so the buffer can never be smaller than that
+        let buffer = vec![0;capacity.max(16)];
 
         TagIterator {
             source,
